@@ -266,6 +266,19 @@ namespace bloch::compiler {
         if (isArray(out.className) && !out.typeArgs.empty()) {
             out.className = typeLabel(out.typeArgs.front()) + "[]";
         }
+        // A member like 'P<Pair<T, T>> f' doubles the type at every access ('p.f.f.f...'): without a
+        // bound the analyser spends exponential time and memory building it.
+        constexpr int kMaxTypeNesting = 12;
+        std::function<int(const TypeInfo&)> nesting = [&](const TypeInfo& ti) {
+            int deepest = 0;
+            for (const auto& a : ti.typeArgs) deepest = std::max(deepest, nesting(a));
+            return deepest + 1;
+        };
+        if (nesting(out) > kMaxTypeNesting) {
+            throw BlochError(ErrorCategory::Semantic, 0, 0,
+                             "generic type is nested too deeply (more than " +
+                                 std::to_string(kMaxTypeNesting) + " levels)");
+        }
         return out;
     }
 
